@@ -17,15 +17,15 @@ REQUIRED_COUNTERS = ['conversions-checked', 'mdd-ops-checked', 'mdd-collections-
 
 
 def bounds(tier):
-    return dict(bits='<=5', int_vars='1-3', conversions=150 if tier == 'quick' else 4000, histories=100 if tier == 'quick' else 3000)
+    return dict(bits='<=5', int_vars='1-3', conversions=150 if tier == 'quick' else 4000 * DEEP, histories=100 if tier == 'quick' else 3000 * DEEP)
 
 
 def chunks(tier, seed):
-    n = 150 if tier == 'quick' else 4000
+    n = 150 if tier == 'quick' else 4000 * DEEP
     out = []
     for k in range(0, n, 15):
         out.append(('case_convert', [dict(seed=seed * 1009 + k + i) for i in range(15)]))
-    h = 100 if tier == 'quick' else 3000
+    h = 100 if tier == 'quick' else 3000 * DEEP
     for k in range(0, h, 10):
         out.append(('case_mdd_history', [dict(seed=seed * 2003 + k + i) for i in range(10)]))
     return out
